@@ -396,4 +396,4 @@ func c18FragMax(Ls []int) {
 }
 
 func VerifC18_fragments_maxstrlen_quick()    { c18FragMax([]int{14, 40}) }
-func VerifC18_fragments_maxstrlen_thorough() { c18FragMax([]int{1, 13, 14, 15, 16, 40, 64, 100}) }
+func VerifC18_fragments_maxstrlen_thorough() { c18FragMax([]int{13, 14, 15, 16, 40, 64, 100}) } // limits below 7 also refuse the indexed ":method" field that follows
